@@ -49,7 +49,7 @@ def run_plain(job):
     from . import drivers
 
     np.random.seed(job["seed"])
-    out = {"job": job, "raised": None, "raised_site": None, "all_inf_batch": False}
+    out = {"job": job, "raised": None, "raised_site": None, "all_inf_batch": False, "nan_prior_draw": False}
     s = None
     try:
         s, c = drivers.build_sampler(job["conf"], None, out_dir=None)
@@ -62,6 +62,9 @@ def run_plain(job):
         out["raised_site"] = psrun.raise_site(ex) + ":" + type(ex).__name__
         try:  # the known all-zero-likelihood prior batch (C11 finding) makes everything downstream NaN
             out["all_inf_batch"] = any(not np.any(np.isfinite(b)) for b in s.state._history["logl"])
+            # the user's likelihood returned NaN for a PRIOR draw (the drivers' NaN pocket is meant to be reached by proposals only,
+            # but a prior draw can land in it): the value is stored and everything downstream is NaN - invalid input, outside the properties
+            out["nan_prior_draw"] = any(bool(np.any(np.isnan(np.asarray(b, dtype=float)))) for b, be in zip(s.state._history["logl"], s.state._history["beta"]) if float(be) == 0.0)
         except Exception:
             pass
         out.update({"iters": [], "weights": [], "evidence": float("nan")})
@@ -73,6 +76,8 @@ def out_of_scope(r):
     relation a pair check decides: such pairs are discarded and counted."""
     if r.get("all_inf_batch"):
         return "all-inf-prior-batch (C11 known finding)"
+    if r.get("nan_prior_draw"):
+        return "the likelihood returned NaN for a prior draw (invalid input, stored as is)"
     rs = r.get("raised_site") or ""
     if rs.startswith("student.") and rs.endswith(":LinAlgError"):
         return "degenerate cluster: singular scale in fit_mvstud (C14 known finding)"
